@@ -2,7 +2,7 @@ use std::ops::Range;
 
 use super::{
 	parse, AuthorityImpl, AuthorityMutImpl, FragmentImpl, PathImpl, PathMutImpl, QueryImpl,
-	RiBufImpl, RiImpl, SegmentImpl,
+	RiBufImpl, RiImpl, SegmentImpl, PARENT_SEGMENT,
 };
 use crate::uri::Scheme;
 
@@ -68,29 +68,35 @@ pub trait RiRefImpl {
 	#[inline]
 	fn relative_to(&self, other: &Self) -> Self::RiRefBuf {
 		let mut result = Self::RiRefBuf::default();
+		// The whole of `self`, dot segments removed the way `==` reads them.
+		let whole = || {
+			let mut whole =
+				unsafe { <Self::RiRefBuf as RiRefBufImpl>::new_unchecked(self.as_bytes().to_vec()) };
+			whole.path_mut().normalize();
+			whole
+		};
 
 		match (self.scheme_opt(), other.scheme_opt()) {
 			(Some(a), Some(b)) if a == b => (),
 			(Some(_), None) => (),
 			(None, Some(_)) => (),
 			(None, None) => (),
-			_ => {
-				return unsafe {
-					<Self::RiRefBuf as RiRefBufImpl>::new_unchecked(self.as_bytes().to_vec())
-				}
-			}
+			_ => return whole(),
 		}
 
 		match (self.authority(), other.authority()) {
 			(Some(a), Some(b)) if a == b => (),
-			(Some(_), None) => (),
-			(None, Some(_)) => (),
 			(None, None) => (),
-			_ => {
-				return unsafe {
-					<Self::RiRefBuf as RiRefBufImpl>::new_unchecked(self.as_bytes().to_vec())
-				}
-			}
+			// An authority on one side only cannot be expressed (or
+			// dropped) by a relative path.
+			_ => return whole(),
+		}
+
+		// Behind an authority an empty base path merges as `/`.
+		let other_is_absolute = other.path().is_absolute()
+			|| (other.authority().is_some() && other.path().is_empty());
+		if self.path().is_absolute() != other_is_absolute {
+			return whole();
 		}
 
 		let mut self_segments = self.path().normalized_segments().peekable();
@@ -100,18 +106,35 @@ pub trait RiRefImpl {
 			.normalized_segments()
 			.peekable();
 
-		if self.path().is_absolute() == other.path().is_absolute() {
-			loop {
-				match (self_segments.peek(), base_segments.peek()) {
-					(Some(a), Some(b))
-						if a.as_pct_str().bytes().eq(b.as_pct_str().bytes()) =>
-					{
-						base_segments.next();
-						self_segments.next();
-					}
-					_ => break,
+		if self_segments.peek().map(|s| s.as_bytes()) == Some(PARENT_SEGMENT)
+			|| base_segments.peek().map(|s| s.as_bytes()) == Some(PARENT_SEGMENT)
+		{
+			// A relative path climbing above its start has no directory
+			// to compare.
+			return whole();
+		}
+
+		let mut common = false;
+		loop {
+			// The last segment names the target itself: only the
+			// directories are compared.
+			let in_directory = self_segments.len() > 1;
+			match (self_segments.peek(), base_segments.peek()) {
+				(Some(a), Some(b))
+					if in_directory && a.as_pct_str().bytes().eq(b.as_pct_str().bytes()) =>
+				{
+					base_segments.next();
+					self_segments.next();
+					common = true
 				}
+				_ => break,
 			}
+		}
+
+		if !common && self_segments.peek().is_some_and(|s| s.is_empty()) {
+			// An empty segment right after the dot segments would be
+			// dropped by the resolution.
+			return whole();
 		}
 
 		for _segment in base_segments {
@@ -124,7 +147,15 @@ pub trait RiRefImpl {
 			result.path_mut().push(segment)
 		}
 
+		if result.path().is_empty() {
+			// The target is the directory of `other` itself.
+			result
+				.path_mut()
+				.push(<<Self::Path as PathImpl>::Segment as SegmentImpl>::EMPTY);
+		}
+
 		if (self.query().is_some() || self.fragment().is_some())
+			&& (self.query().is_some() || other.query().is_none())
 			&& Some(result.path().as_bytes()) == other.path().last().map(|s| s.as_bytes())
 		{
 			result.path_mut().clear()
